@@ -23,7 +23,7 @@ import (
 func init() {
 	Registry["C14"] = &Check{
 		Scenarios: c14Scenarios,
-		Rule: "events: CloseNotify requested {inside the first handler, by a free application thread at every possible instant (in particular while the reader is parked in Read), twice (handler + thread), after termination}; two messages delivered in three fragments (one fragment boundary inside the first header); termination by {peer EOF, transport read error, undecodable header followed by trailing bytes, local Close from a free thread at every instant, a handler panic on the second message (recovered by the serve loop)}; an observer thread records the instant the channel closes. The requesting / closing / observing threads and the peer are environment threads, so every ordering of their steps against the library's steps is explored even at preemption bound 0; library preemption bound 2 (quick) / unbounded (thorough). The same request modes {handler, thread, after} x terminations {EOF, undecodable input, local Close} on a multistream (in-memory SCTP) connection, where CloseNotify installs a read-error handler. Also sm.Client with the watchdog enabled followed by a quiet peer close (virtual time, horizon 12 s).",
+		Rule: "events: CloseNotify requested {inside the first handler, by a free application thread at every possible instant (in particular while the reader is parked in Read), twice (handler + thread), after termination}; two messages delivered in three fragments (one fragment boundary inside the first header); termination by {peer EOF, transport read error, EOF / read error returned by the same Read that delivers the last message (n > 0 with err != nil), undecodable header followed by trailing bytes, local Close from a free thread at every instant, a handler panic on the second message (recovered by the serve loop)}; an observer thread records the instant the channel closes. The requesting / closing / observing threads and the peer are environment threads, so every ordering of their steps against the library's steps is explored even at preemption bound 0; library preemption bound 2 (quick) / unbounded (thorough). The same request modes {handler, thread, after} x terminations {EOF, undecodable input, local Close} on a multistream (in-memory SCTP) connection, where CloseNotify installs a read-error handler. Also sm.Client with the watchdog enabled followed by a quiet peer close (virtual time, horizon 12 s).",
 		Assume: []string{"data-race freedom between visible operations (audited separately with -race)", "io.Pipe is modelled by vsched.Pipe (Write blocks until the data is consumed or either end is closed)"},
 		QuickBudget: 100, ThoroughBudget: 1500,
 	}
@@ -55,7 +55,10 @@ func c14Scenarios(tier string) []*Scenario {
 	}
 	var out []*Scenario
 	for _, req := range []string{"handler", "thread", "both", "after", "none"} {
-		for _, term := range []string{"eof", "rerr", "garbage", "localclose", "panic"} {
+		for _, term := range []string{"eof", "rerr", "garbage", "localclose", "panic", "eofdata", "rerrdata"} {
+			if (term == "eofdata" || term == "rerrdata") && (req == "both" || req == "none" && term == "rerrdata") {
+				continue
+			}
 			b := bound
 			if tier != "thorough" && req == "both" && term == "localclose" {
 				b = 1 // the largest product space: bound 1 in the quick tier, unbounded in the thorough tier
@@ -162,6 +165,19 @@ func c14Scenario(req, term string, bound int) *Scenario {
 			vs.Yield("env")
 			conn.Deliver(m1[10:])
 			vs.Yield("env")
+			if term == "eofdata" || term == "rerrdata" {
+				// the last message and the end of the stream arrive together: one Read returns both
+				conn.ErrWithData = true
+				st.termIssued = true
+				vs.Event("peer: last message and %s in one read", term)
+				conn.Deliver(m2)
+				if term == "eofdata" {
+					conn.PeerEOF()
+				} else {
+					conn.PeerErr(errors.New("connection reset by peer"))
+				}
+				return
+			}
 			conn.Deliver(m2)
 			vs.Yield("env")
 			switch term {
